@@ -33,6 +33,9 @@ pub enum Wl {
     W10,
     /// two short streams whose FIN is sent later than the data, in a frame of its own
     W11,
+    /// the receiver stops the first stream early; the sender abandons it and goes on with three
+    /// more streams (with a small stream limit they reuse what the stopped stream released)
+    W12,
 }
 
 pub fn plans(w: Wl, read: ReadMode) -> (Plan, Plan) {
@@ -71,6 +74,12 @@ pub fn plans(w: Wl, read: ReadMode) -> (Plan, Plan) {
                 StreamPlan { dir: Dir::Bi, len: 1500, chunk: 1500, end: End::FinishLater(1) },
             ];
             s.echo_len = Some(900);
+        }
+        Wl::W12 => {
+            c.streams = vec![uni(3000, 600), uni(2000, 2000), bi(1500, 700), uni(1000, 1000)];
+            c.reset_on_stopped = true;
+            s.stop = Some((0, 500, 55));
+            s.echo_len = Some(700);
         }
         Wl::W10 => {
             c.streams = vec![uni(40_000, 4000)];
@@ -567,6 +576,7 @@ pub fn wl_from_str(s: &str) -> Wl {
         "W9" => Wl::W9,
         "W10" => Wl::W10,
         "W11" => Wl::W11,
+        "W12" => Wl::W12,
         _ => crate::report::machinery(&format!("unknown workload {s}")),
     }
 }
